@@ -1896,20 +1896,34 @@ impl ArchiveBuilder {
         value: u64,
         bit_size: u32,
     ) -> Result<()> {
-        let bit_offset = index * bit_size as usize;
+        self.write_bits_at(data, index * bit_size as usize, value, bit_size)
+    }
+
+    /// Write the low `bit_size` bits of `value` at `bit_offset` of a bit-packed byte array
+    fn write_bits_at(
+        &self,
+        data: &mut [u8],
+        bit_offset: usize,
+        value: u64,
+        bit_size: u32,
+    ) -> Result<()> {
+        if bit_size > 64 {
+            return Err(Error::invalid_format("Bit field wider than 64 bits"));
+        }
+
         let byte_offset = bit_offset / 8;
         let bit_shift = bit_offset % 8;
 
-        // Calculate how many bytes we actually need
+        // Calculate how many bytes we actually need: an unaligned 64-bit field
+        // spans nine
         let bits_needed = bit_shift + bit_size as usize;
         let bytes_needed = bits_needed.div_ceil(8);
 
         if byte_offset + bytes_needed > data.len() {
             log::error!(
-                "Bit entry out of bounds: index={}, bit_size={}, bit_offset={}, byte_offset={}, bytes_needed={}, data.len()={}",
-                index,
-                bit_size,
+                "Bit field out of bounds: bit_offset={}, bit_size={}, byte_offset={}, bytes_needed={}, data.len()={}",
                 bit_offset,
+                bit_size,
                 byte_offset,
                 bytes_needed,
                 data.len()
@@ -1917,13 +1931,12 @@ impl ArchiveBuilder {
             return Err(Error::invalid_format("Bit entry out of bounds"));
         }
 
-        // Read existing bits (limit to 8 bytes for u64)
-        let mut existing = 0u64;
-        let max_bytes = bytes_needed.min(8);
-        for i in 0..max_bytes {
-            if byte_offset + i < data.len() && i * 8 < 64 {
-                existing |= (data[byte_offset + i] as u64) << (i * 8);
-            }
+        let field = &mut data[byte_offset..byte_offset + bytes_needed];
+
+        // Read existing bits
+        let mut existing = 0u128;
+        for (i, &byte) in field.iter().enumerate() {
+            existing |= (byte as u128) << (i * 8);
         }
 
         // Clear the bits we're about to write
@@ -1932,17 +1945,14 @@ impl ArchiveBuilder {
         } else {
             (1u64 << bit_size) - 1
         };
-        let mask = value_mask << bit_shift;
-        existing &= !mask;
+        existing &= !((value_mask as u128) << bit_shift);
 
         // Write the new value
-        existing |= (value & value_mask) << bit_shift;
+        existing |= ((value & value_mask) as u128) << bit_shift;
 
-        // Write back (limit to 8 bytes for u64)
-        for i in 0..max_bytes {
-            if byte_offset + i < data.len() && i * 8 < 64 {
-                data[byte_offset + i] = (existing >> (i * 8)) as u8;
-            }
+        // Write back
+        for (i, byte) in field.iter_mut().enumerate() {
+            *byte = (existing >> (i * 8)) as u8;
         }
 
         Ok(())
@@ -2131,15 +2141,38 @@ impl ArchiveBuilder {
                 // Get flag index
                 let flag_index = flag_index_map.get(&entry.flags).unwrap();
 
-                // Pack entry data
-                let mut entry_bits = 0u64;
-                entry_bits |= (entry.file_pos as u64) << bit_index_file_pos;
-                entry_bits |= (entry.file_size as u64) << bit_index_file_size;
-                entry_bits |= (entry.compressed_size as u64) << bit_index_cmp_size;
-                entry_bits |= (*flag_index as u64) << bit_index_flag_index;
-
-                // Write to file table
-                self.write_bit_entry(&mut file_table, i, entry_bits, table_entry_size)?;
+                // Write the entry's fields to the file table one by one: together
+                // they can be wider than 64 bits
+                let entry_bit_offset = i * table_entry_size as usize;
+                for (bit_index, bit_count, value) in [
+                    (
+                        bit_index_file_pos,
+                        bit_count_file_pos,
+                        entry.file_pos as u64,
+                    ),
+                    (
+                        bit_index_file_size,
+                        bit_count_file_size,
+                        entry.file_size as u64,
+                    ),
+                    (
+                        bit_index_cmp_size,
+                        bit_count_cmp_size,
+                        entry.compressed_size as u64,
+                    ),
+                    (
+                        bit_index_flag_index,
+                        bit_count_flag_index,
+                        *flag_index as u64,
+                    ),
+                ] {
+                    self.write_bits_at(
+                        &mut file_table,
+                        entry_bit_offset + bit_index as usize,
+                        value,
+                        bit_count,
+                    )?;
+                }
 
                 // Generate BET hash: the same hashlittle2 name hash HET is built from,
                 // which is what `BetTable::verify_file_hash` recomputes on lookup
